@@ -1684,12 +1684,14 @@ def run(ctx):
             ctx.log("stream %s done" % name)
     ctx.finish(level="proof", rule=PROP_RULE, trusted_base=TRUSTED, assumptions=ASSUME,
                extra={"partial": [
-                   "C16_roundtrip_partial: the round trip `parse (print layout ast) = ast` is proved for every token class except exponent numbers, "
-                   "literals with @lang / ^^datatype and long strings, and at statement level only for the one-triple family "
-                   "(C16_roundtrip_triple / _group / _select: `SELECT * WHERE { s p o }` under any layout and keyword case); `;` `,` lists, FILTER / BIND / "
-                   "VALUES / GRAPH / UNION / sub-select, modifiers and the update forms are checked by the tree and follower streams only",
+                   "C16_roundtrip_partial: the round trip `parse (print cst) = tree cst` (any layout, comments, keyword case) is proved for triples statements "
+                   "with `;` / `,` lists, FILTER expressions (|| && ! comparisons, function calls, arithmetic with parentheses), GRAPH, UNION chains, sub-selects, "
+                   "optional `.`, nested group patterns, SELECT with DISTINCT / projection / aggregates / FROM / FROM NAMED / GROUP BY / ORDER BY / LIMIT and the whole "
+                   "request up to end of input (C16_roundtrip_statement .. C16_roundtrip_query). NOT proved, checked by the tree and follower streams only: "
+                   "parenthesised boolean sub-expressions in FILTER, BIND, VALUES, the PREFIX prologue in front of the proved request, the six update forms, "
+                   "exponent numbers, literals with @lang / ^^datatype, long strings, quoted triples as terms",
                    "extension grammars (RULE, REGISTER/RSP-QL, ML.PREDICT, MODEL / NEURAL RELATION, legacy parse_where): not modelled, totality exercised by the mutant stream only",
-                   "fuel adequacy of the grammar model (parse_top never answers Fuel with the fuel of Run.v) is observed, not proved",
+                   "fuel adequacy of the grammar model (parse_top never answers Fuel with the fuel of Run.v) is observed, not proved; the round-trip theorems take an explicit bound sz_* cst <= fuel",
                    "panic-freedom of the real code is a runtime fact tied to the model by the correspondence check only"]})
 
 
